@@ -18,6 +18,8 @@ def sh(cmd, **kw):
 assert sh('git -C /repo status --porcelain').stdout.strip()=='' , 'repo dirty'
 for m in muts:
     if sel and not any(s in m['name'] for s in sel): continue
+    if m.get('equivalent'):
+        res.append((m['name'],'-','EQUIVALENT: '+m['equivalent'])); continue
     path='/repo/'+m['file']
     src=open(path).read()
     if src.count(m['old'])!=1:
@@ -41,6 +43,7 @@ for m in muts:
 # replays written while mutated are not regressions of the real tree: remove them
 sh("cd /verif && git status --porcelain -uall replays | awk '/^\\?\\?/{print $2}' | xargs -r rm -f")
 assert sh('git -C /repo status --porcelain').stdout.strip()=='' , 'repo dirty after run'
-missed=[r for r in res if 'MISSED' in str(r) or 'FALSE-ALARM' in str(r) or 'SKIP' in str(r)]
+missed=[r for r in res if 'MISSED' in str(r[2]) or 'FALSE-ALARM' in str(r[2]) or 'SKIP' in str(r[1])]
+json.dump([{'mutant':r[0],'check':r[1],'outcome':r[2],'seconds':(r[3] if len(r)>3 and isinstance(r[3],(int,float)) else None),'first_report':(r[4] if len(r)>4 else (r[3] if len(r)>3 and isinstance(r[3],str) else ''))} for r in res if len(r)>2],open('/verif/mutants/results.json','w'),indent=1)
 print('\nSUMMARY: %d results, %d problems'%(len(res),len(missed)))
 for r in missed: print('  ',r[:3])
